@@ -82,11 +82,17 @@ func (id ID) Time() int64 {
 
 // Contract retrieves the contract from the message ID.
 func (id ID) Contract() uint32 {
+	if len(id) < fixed+4 {
+		return 0
+	}
 	return binary.BigEndian.Uint32(id[fixed : fixed+4])
 }
 
 // Ssid retrieves the SSID from the message ID.
 func (id ID) Ssid() Ssid {
+	if len(id) < fixed {
+		return nil
+	}
 	ssid := make(Ssid, (len(id)-fixed)/4)
 	for i := 0; i < len(ssid); i++ {
 		ssid[i] = binary.BigEndian.Uint32(id[fixed+i*4 : fixed+4+i*4])
